@@ -84,3 +84,46 @@ func HC12_SubscriptionBits() {
 	vAssert(event.Subscription(s).ContainsAny(event.Subscription(t)) == (s&t != 0), "Subscription.ContainsAny is non-empty intersection")
 	vReach("end")
 }
+
+func init() { vRegister("HC12_World", HC12_World) }
+
+// HC12_World: a listener restricted to symbolic event types S and a symbolic
+// component restriction C receives exactly the documented part of the stream:
+// the model predicts the full event of every changed entity (C11 oracle), the
+// documented rule decides whether it must be delivered.
+func HC12_World() {
+	prof, capInc, relInc := 0, 1, 1
+	npre := 2
+	if vTier() == 1 {
+		prof, capInc, relInc = hConfig2()
+		npre = 5
+	}
+	x := hNew(prof, 6, capInc, relInc)
+	x.prefix([5]int{3, 8, 1, 7, 11}[vChoice("prefix", npre)])
+	rec := &hRec{x: x, restricted: true}
+	rec.subs = event.Subscription(vU8("S") & 63)
+	if vChoice("restriction", 2) == 1 {
+		var c Mask
+		for k := 0; k < x.nu; k++ {
+			hSetBit(&c, x.id[k].id, vBool("C"))
+		}
+		rec.comp = &c
+	}
+	x.w.SetListener(rec)
+	x.rec = nil // Q-variant timing is asserted in C11; here only the selection
+	before := x.snap()
+	wasReset := false
+	switch vChoice("family", 3) {
+	case 0:
+		x.legalStep(vChoice("op", hNOps))
+	case 1:
+		x.batchStep(vChoice("op", hNBatchOps))
+	default:
+		op := vChoice("op", hNDeathOps)
+		wasReset = op == 4
+		x.deathStep(op)
+	}
+	x.checkEvents(rec, &before, wasReset)
+	x.check()
+	vReach("end")
+}
